@@ -100,6 +100,7 @@ type feCase struct {
 	ranges   []string
 	fuseOps  [][2]int64 // (offset, size)
 	fuseSeq  bool       // then sequential reads with evictions in between
+	fuseIntr int        // >= 0: one of the sequential reads is interrupted after that many ms, the read for the range behind it goes ahead
 	idleRate uint32
 }
 
@@ -127,6 +128,7 @@ func TestC02FrontEnds(t *testing.T) {
 				fmt.Sprintf("bytes=%d-%d,%d-", 0, min(a, 10), b), fmt.Sprintf("bytes=%d-", flen+5), "bytes=0-0", "bytes=5-2", "items=0-5"}).Draw(rt, "range"))
 		}
 		c.fuseSeq = rapid.Bool().Draw(rt, "fuseSeq")
+		c.fuseIntr = rapid.SampledFrom([]int{-1, -1, 0, 1, 50}).Draw(rt, "fuseIntr")
 		for i, n := 0, rapid.IntRange(1, 4).Draw(rt, "nfuse"); i < n; i++ {
 			c.fuseOps = append(c.fuseOps, [2]int64{rapid.Int64Range(0, flen+100).Draw(rt, "foff"), rapid.SampledFrom([]int64{1, 100, 4096, 65536, 131072}).Draw(rt, "fsize")})
 		}
@@ -291,6 +293,21 @@ func runFE(c feCase, out map[string]bool) string {
 		return fmt.Sprintf("fuse: Open: %v", err)
 	}
 	rd := h.(fs.HandleReader)
+	// (a reader that is dropped without being closed is closed by a finalizer,
+	// outside the bubble: the handle is released on every path)
+	defer func() {
+		if rl, ok := h.(fs.HandleReleaser); ok {
+			rdone := make(chan struct{})
+			go func() {
+				rl.Release(context.Background(), &bfuse.ReleaseRequest{})
+				close(rdone)
+			}()
+			select {
+			case <-rdone:
+			case <-time.After(time.Minute):
+			}
+		}
+	}()
 	type fres struct {
 		i    int
 		data []byte
@@ -335,6 +352,34 @@ func runFE(c feCase, out map[string]bool) string {
 		pos := int64(0)
 		for k := 0; k < 3 && pos < flen; k++ {
 			size := min(int64(100+k*4000), flen-pos)
+			if c.fuseIntr >= 0 && k == 1 && pos+size < flen {
+				// the kernel had two reads queued, for this range and the next; the
+				// first is interrupted (its context ends) before or while it waits
+				// for data, the second goes ahead
+				ictx, icancel := context.WithCancel(context.Background())
+				go func() {
+					time.Sleep(time.Duration(c.fuseIntr) * time.Millisecond)
+					icancel()
+				}()
+				ra := &bfuse.ReadResponse{Data: make([]byte, 0, size)}
+				adone := make(chan error, 1)
+				go func() { adone <- rd.Read(ictx, &bfuse.ReadRequest{Offset: pos, Size: int(size)}, ra) }()
+				select {
+				case err := <-adone:
+					if err == nil && !bytes.Equal(ra.Data, F[pos:pos+int64(len(ra.Data))]) {
+						return fmt.Sprintf("fuse: interrupted Read(offset %d, size %d) returned %d bytes that are not the file's", pos, size, len(ra.Data))
+					}
+					if err != nil || int64(len(ra.Data)) < size {
+						labels.set("fuse-read-interrupted")
+					}
+				case <-time.After(15 * time.Minute):
+					cancel()
+					return fmt.Sprintf("fuse: a Read(offset %d, size %d) whose context ended has not returned after 15 virtual minutes", pos, size)
+				}
+				icancel()
+				pos += size
+				size = min(size, flen-pos)
+			}
 			resp := &bfuse.ReadResponse{Data: make([]byte, 0, size)}
 			done := make(chan error, 1)
 			go func() { done <- rd.Read(context.Background(), &bfuse.ReadRequest{Offset: pos, Size: int(size)}, resp) }()
@@ -356,9 +401,6 @@ func runFE(c feCase, out map[string]bool) string {
 			sim.Settle()
 			labels.set("fuse-evicted-between-sequential-reads")
 		}
-	}
-	if rl, ok := h.(fs.HandleReleaser); ok {
-		rl.Release(context.Background(), &bfuse.ReleaseRequest{})
 	}
 	return ""
 }
